@@ -1,25 +1,387 @@
 package main
 
 import (
+	"encoding/json"
+	"flag"
 	"fmt"
 	"os"
+	"path/filepath"
+	"sort"
+	"strconv"
+	"strings"
 	"time"
 
-	"golang.org/x/tools/go/packages"
 	"golang.org/x/tools/go/ssa"
-	"golang.org/x/tools/go/ssa/ssautil"
 )
 
-func main() {
-	t0 := time.Now()
-	cfg := &packages.Config{Mode: packages.LoadAllSyntax, Dir: "/repo", Env: append(os.Environ(), "GOWORK=off", "GOFLAGS=-mod=mod")}
-	pkgs, err := packages.Load(cfg, ".")
-	if err != nil {
-		panic(err)
+var (
+	rules      = map[string]*Rule{}
+	properties = map[string]*PropertyDef{}
+)
+
+func register(r *Rule) {
+	if _, dup := rules[r.ID]; dup {
+		panic("duplicate rule " + r.ID)
 	}
-	fmt.Println(len(pkgs), pkgs[0].PkgPath, len(pkgs[0].Errors), time.Since(t0))
-	prog, spkgs := ssautil.Packages(pkgs, ssa.InstantiateGenerics)
-	spkgs[0].Build()
-	_ = prog
-	fmt.Println(len(spkgs[0].Members), time.Since(t0))
+	rules[r.ID] = r
+}
+
+func registerProperty(p *PropertyDef) { properties[p.ID] = p }
+
+type replayFile struct {
+	Property   string     `json:"property"`
+	Repo       string     `json:"repo"`
+	Arch       string     `json:"arch"`
+	Obligation Obligation `json:"obligation"`
+	RuleText   string     `json:"rule_text"`
+}
+
+func main() {
+	repo := flag.String("repo", "/repo", "repository to analyse")
+	prop := flag.String("property", "", "property id (C01..C20) or 'all'")
+	tier := flag.String("tier", "", "quick | thorough (default: $VERIF_TIER or quick)")
+	evDir := flag.String("evidence-dir", "/verif/evidence", "directory for evidence files")
+	known := flag.String("known", "/verif/known_findings.json", "known-findings file (read only)")
+	replay := flag.String("replay", "", "replay a violation file")
+	dump := flag.String("dump", "", "debug: dump summaries/flows of a function")
+	listRules := flag.Bool("list", false, "list properties and rules")
+	variants := flag.String("variants", "/verif/variants", "directory with seeded/benign variants for the thorough self-test")
+	noSelf := flag.Bool("no-selftest", false, "thorough tier without the variant self-test")
+	only := flag.String("rule", "", "run only this rule (debug)")
+	flag.Parse()
+
+	if *listRules {
+		ids := sortedKeys(properties)
+		for _, id := range ids {
+			p := properties[id]
+			fmt.Printf("%s %s\n", id, p.Title)
+			for _, r := range p.Rules {
+				if rules[r] == nil {
+					fmt.Printf("   %s  <MISSING RULE>\n", r)
+					continue
+				}
+				fmt.Printf("   %s (min %d) %s\n", r, rules[r].Min, short(rules[r].Text, 110))
+			}
+		}
+		return
+	}
+	if *replay != "" {
+		os.Exit(doReplay(*replay))
+	}
+	if *tier == "" {
+		*tier = os.Getenv("VERIF_TIER")
+	}
+	if *tier != "thorough" {
+		*tier = "quick"
+	}
+	if *dump != "" {
+		w, err := loadWorld(*repo, "")
+		if err != nil {
+			fail(2, "%v", err)
+		}
+		w.computeSummaries()
+		debugDump(w, *dump)
+		return
+	}
+	if *prop == "" {
+		fail(2, "missing -property")
+	}
+	var ids []string
+	if *prop == "all" {
+		ids = sortedKeys(properties)
+	} else {
+		for _, id := range strings.Split(*prop, ",") {
+			if properties[id] == nil {
+				fail(2, "unknown property %q", id)
+			}
+			ids = append(ids, id)
+		}
+	}
+	seed := 0
+	if s := os.Getenv("VERIF_SEED"); s != "" {
+		seed, _ = strconv.Atoi(s)
+	}
+	kf, err := loadKnown(*known)
+	if err != nil {
+		fail(2, "known findings file: %v", err)
+	}
+
+	t0 := time.Now()
+	archs := []string{"amd64"}
+	if *tier == "thorough" {
+		archs = append(archs, "386")
+	}
+	var worlds []*World
+	for _, a := range archs {
+		w, err := loadWorld(*repo, a)
+		if err != nil {
+			fail(2, "cannot analyse %s (GOARCH=%s): %v", *repo, a, err)
+		}
+		w.computeSummaries()
+		worlds = append(worlds, w)
+	}
+	loadS := time.Since(t0).Seconds()
+
+	exit := 0
+	for _, id := range ids {
+		code := runProperty(properties[id], worlds, *tier, seed, kf, *evDir, *repo, loadS, *only, *variants, *noSelf)
+		if code > exit {
+			exit = code
+		}
+	}
+	os.Exit(exit)
+}
+
+// runProperty evaluates all rules of a property on all loaded configurations.
+func runProperty(p *PropertyDef, worlds []*World, tier string, seed int, kf *KnownFile, evDir, repo string, loadS float64, only, variants string, noSelf bool) int {
+	t0 := time.Now()
+	var all []Obligation
+	type ruleStat struct {
+		Rule       string `json:"rule"`
+		Text       string `json:"text"`
+		Instances  int    `json:"instances"`
+		Min        int    `json:"expected_min"`
+		Discharged int    `json:"discharged"`
+		Violated   int    `json:"violated"`
+		Undecided  int    `json:"undecided"`
+	}
+	var stats []ruleStat
+	var broken []string
+	funcsAnalysed, callSites := 0, 0
+	for _, w := range worlds {
+		funcsAnalysed += len(w.Funcs)
+		callSites += w.countCallSites()
+	}
+	for _, rid := range p.Rules {
+		if only != "" && rid != only {
+			continue
+		}
+		rule := rules[rid]
+		if rule == nil {
+			broken = append(broken, "rule "+rid+" is not implemented")
+			continue
+		}
+		st := ruleStat{Rule: rid, Text: rule.Text, Min: rule.Min}
+		for _, w := range worlds {
+			rr := &RuleResult{Rule: rid, Text: rule.Text, MinInst: rule.Min}
+			func() {
+				defer func() {
+					if e := recover(); e != nil {
+						broken = append(broken, fmt.Sprintf("rule %s panicked on GOARCH=%s: %v", rid, w.Arch, e))
+					}
+				}()
+				rule.Run(w, rr)
+			}()
+			for _, a := range rr.Anchors {
+				broken = append(broken, fmt.Sprintf("rule %s: unresolved anchor %s (GOARCH=%s)", rid, a, w.Arch))
+			}
+			if len(rr.Obs) < rule.Min {
+				broken = append(broken, fmt.Sprintf("rule %s matched %d constructs on GOARCH=%s, fewer than the %d confirmed by hand (vacuous)", rid, len(rr.Obs), w.Arch, rule.Min))
+			}
+			for _, o := range rr.Obs {
+				o.Arch = w.Arch
+				all = append(all, o)
+			}
+			if w == worlds[0] {
+				st.Instances = len(rr.Obs)
+			}
+		}
+		stats = append(stats, st)
+	}
+	// de-duplicate across configurations (same rule+construct+status)
+	seen := map[string]int{}
+	var obs []Obligation
+	for _, o := range all {
+		k := obKey(o) + "|" + o.Status
+		if i, ok := seen[k]; ok {
+			if !strings.Contains(obs[i].Arch, o.Arch) {
+				obs[i].Arch += "," + o.Arch
+			}
+			continue
+		}
+		seen[k] = len(obs)
+		obs = append(obs, o)
+	}
+	sortObs(obs)
+	nontrivial := map[string]bool{}
+	nViol, nKnown, nUndec := 0, 0, 0
+	for i := range stats {
+		for _, o := range obs {
+			if o.Rule != stats[i].Rule {
+				continue
+			}
+			switch o.Status {
+			case "discharged":
+				stats[i].Discharged++
+			case "violated":
+				stats[i].Violated++
+			case "undecided":
+				stats[i].Undecided++
+			}
+		}
+	}
+	violDir := filepath.Join(evDir, p.ID+".violations")
+	os.RemoveAll(violDir)
+	var knownLines []string
+	for _, o := range obs {
+		if o.Nontrivial {
+			nontrivial[obKey(o)] = true
+		}
+		switch o.Status {
+		case "undecided":
+			nUndec++
+			broken = append(broken, fmt.Sprintf("undecided obligation %s: %s", obKey(o), o.Detail))
+		case "violated":
+			if f := kf.match(p.ID, o); f != nil {
+				nKnown++
+				knownLines = append(knownLines, fmt.Sprintf("KNOWN-FINDING: property=%s %s | %s: %s", p.ID, o.Rule, o.Key, f.WhatFails))
+				continue
+			}
+			nViol++
+			path := filepath.Join(violDir, fmt.Sprintf("%d.json", nViol))
+			arch := strings.Split(o.Arch, ",")[0]
+			writeJSON(path, replayFile{Property: p.ID, Repo: repo, Arch: arch, Obligation: o, RuleText: rules[o.Rule].Text})
+			fmt.Printf("VIOLATION property=%s replay=%s\n", p.ID, path)
+			fmt.Printf("  %s: %s: %s: %s: %s\n", o.Pos, o.Rule, short(rules[o.Rule].Text, 160), o.Key, o.Detail)
+		}
+	}
+	for _, l := range knownLines {
+		fmt.Println(l)
+	}
+
+	selfNote := ""
+	if tier == "thorough" && !noSelf && only == "" {
+		okN, skipN, failMsgs := runSelfTest(p, variants, repo)
+		selfNote = fmt.Sprintf("variant self-test: %d as expected, %d skipped (patch no longer applies)", okN, skipN)
+		for _, m := range failMsgs {
+			broken = append(broken, "self-test: "+m)
+		}
+	}
+
+	// evidence
+	samples := pickSamples(obs)
+	cov := map[string]interface{}{
+		"explanation": p.Explain,
+		"evaluations": len(obs),
+		"distinct_nontrivial": len(nontrivial),
+		"rule": "one obligation per (rule, construct) found in the SSA of /repo's current tree; non-trivial = the obligation needed a dataflow, dominance, provenance or constant-evaluation argument (not a syntactically constant operand)",
+		"samples": samples,
+		"obligations": len(obs),
+		"discharged": len(obs) - nViol - nKnown - nUndec,
+		"known_findings": nKnown,
+		"undecided": nUndec,
+		"rules": stats,
+		"functions_analysed": funcsAnalysed,
+		"call_sites": callSites,
+		"configs": archsOf(worlds),
+		"files": worlds[0].Files,
+		"not_decided": p.NotDecided,
+		"checker_cmd": fmt.Sprintf("bin/apdlint -repo %s -property %s -tier %s", repo, p.ID, tier),
+		"trusted_base": []string{"go/types + go/ssa model of the program (x/tools v0.29.0)", "hand-written mod/ref table for math/big.Int methods", "hand summaries of the unsafe helpers (*BigInt).inner and noescape"},
+		"exhaustive": true,
+		"load_s": loadS,
+	}
+	if selfNote != "" {
+		cov["self_test"] = selfNote
+	}
+	if len(broken) > 0 {
+		cov["machinery_errors"] = broken
+	}
+	ev := Evidence{PropertyID: p.ID, Tier: tier, Seed: seed, Level: "other", Coverage: cov,
+		Assumptions: p.Assumes, WallS: time.Since(t0).Seconds() + loadS, Violations: nViol}
+	if err := writeJSON(filepath.Join(evDir, p.ID+".json"), ev); err != nil {
+		fail(2, "write evidence: %v", err)
+	}
+	fmt.Printf("%s [%s]: %d obligations over %d rules (%d non-trivial), %d discharged, %d violated, %d known findings, %d undecided; %d functions, %s\n",
+		p.ID, tier, len(obs), len(stats), len(nontrivial), len(obs)-nViol-nKnown-nUndec, nViol, nKnown, nUndec, funcsAnalysed, strings.Join(archsOf(worlds), "+"))
+	if len(broken) > 0 {
+		for _, b := range broken {
+			fmt.Fprintf(os.Stderr, "apdlint: %s: CHECK BROKEN: %s\n", p.ID, b)
+		}
+	}
+	if nViol > 0 {
+		return 1
+	}
+	if len(broken) > 0 {
+		return 2
+	}
+	return 0
+}
+
+func archsOf(ws []*World) []string {
+	var out []string
+	for _, w := range ws {
+		out = append(out, "linux/"+w.Arch)
+	}
+	return out
+}
+
+func pickSamples(obs []Obligation) []Obligation {
+	// a few obligations per rule, non-trivial first
+	per := map[string]int{}
+	var out []Obligation
+	sorted := append([]Obligation(nil), obs...)
+	sort.SliceStable(sorted, func(i, j int) bool { return sorted[i].Nontrivial && !sorted[j].Nontrivial })
+	for _, o := range sorted {
+		if per[o.Rule] >= 3 {
+			continue
+		}
+		per[o.Rule]++
+		o.Detail = short(o.Detail, 400)
+		out = append(out, o)
+	}
+	sortObs(out)
+	return out
+}
+
+func (w *World) countCallSites() int {
+	n := 0
+	for _, name := range w.Names {
+		for _, b := range w.Funcs[name].Blocks {
+			for _, in := range b.Instrs {
+				if _, ok := in.(ssa.CallInstruction); ok {
+					n++
+				}
+			}
+		}
+	}
+	return n
+}
+
+func doReplay(path string) int {
+	b, err := os.ReadFile(path)
+	if err != nil {
+		fail(2, "%v", err)
+	}
+	var rf replayFile
+	if err := json.Unmarshal(b, &rf); err != nil {
+		fail(2, "%v", err)
+	}
+	rule := rules[rf.Obligation.Rule]
+	if rule == nil {
+		fail(2, "unknown rule %s", rf.Obligation.Rule)
+	}
+	w, err := loadWorld(rf.Repo, rf.Arch)
+	if err != nil {
+		fail(2, "%v", err)
+	}
+	w.computeSummaries()
+	rr := &RuleResult{Rule: rule.ID, Text: rule.Text}
+	rule.Run(w, rr)
+	fmt.Printf("replay of %s on %s (GOARCH=%s)\nrule %s: %s\n", path, rf.Repo, rf.Arch, rule.ID, rule.Text)
+	found := false
+	for _, o := range rr.Obs {
+		if o.Key == rf.Obligation.Key {
+			found = true
+			fmt.Printf("construct: %s\nposition:  %s\nstatus:    %s\ndetail:    %s\n", o.Key, o.Pos, o.Status, o.Detail)
+			if o.Status == "violated" {
+				fmt.Printf("VIOLATION property=%s replay=%s\n", rf.Property, path)
+				return 1
+			}
+		}
+	}
+	if !found {
+		fmt.Println("construct no longer present in the analysed tree")
+	}
+	return 0
 }
